@@ -83,6 +83,7 @@ AcctMustError(scope, b) ==
    \/ ~Valid("AcctRequest", Dec("AcctRequest", b).v)
    \/ ~HasUser(cfg, scope, Dec("AcctRequest", b).v.user)
    \/ ~EffAcct(TheUser(cfg, scope, Dec("AcctRequest", b).v.user))
+   \/ AcctKind(TheUser(cfg, scope, Dec("AcctRequest", b).v.user)) = "stderr"      \* accounter type without a registered factory
 RecordMatches(d, b) == LET q == Dec("AcctRequest", b) IN
    q.ok /\ d.ok /\ d.dec.flags = q.v.flags /\ d.dec.method = q.v.method /\ d.dec.priv = q.v.priv /\ d.dec.atype = q.v.atype
    /\ d.dec.service = q.v.service /\ d.dec.user = q.v.user /\ d.dec.port = q.v.port /\ d.dec.raddr = q.v.raddr /\ d.dec.args = q.v.args
